@@ -411,6 +411,35 @@ def run_suite(run_, names, tier, procs=16, keep=None):
                 run_.ob(oid, st, be, secs, detail=detail, witness=wit, text=text)
 
 
+def log_space_obligations(run_):
+    """`log_abs_det` is documented as the logarithm of |det|: its value must be finite whenever that logarithm is, for every size
+    -- so no implementation may form the determinant (or the product of a diagonal) itself, which over/underflows in double
+    precision from a few hundred dimensions on.  Static obligation on the real source (Engine C): the set of numpy reductions
+    called in any `log_abs_det` body is disjoint from {prod, cumprod, det}."""
+    import ast
+    src = open(os.path.join(core.SRC, "mici", "matrices.py")).read()
+    tree = ast.parse(src)
+    banned = {"prod", "cumprod", "det", "product"}
+    n = 0
+    for cls in [x for x in tree.body if isinstance(x, ast.ClassDef)]:
+        for fn in [x for x in cls.body if isinstance(x, ast.FunctionDef) and x.name == "log_abs_det"]:
+            called = set()
+            for node in ast.walk(fn):
+                if isinstance(node, ast.Call):
+                    f = node.func
+                    called.add(f.attr if isinstance(f, ast.Attribute) else getattr(f, "id", ""))
+            bad = sorted(called & banned)
+            n += 1
+            run_.ob(f"matrices.{cls.name}.log_abs_det/accumulates-in-log-space", core.DISCHARGED if not bad else core.FAILED, "frames",
+                    detail="" if not bad else f"{cls.name}.log_abs_det (line {fn.lineno}) calls {bad}: the intermediate product leaves the double range "
+                    "(e.g. dimension 400, diagonal entries near 0.05 or 20) although log|det| is an ordinary number",
+                    witness=None if not bad else {"class": cls.name, "calls": bad},
+                    replay=(lambda w: {"script": "c10_logdet_range.py", "args": [json.dumps(w)], "timeout": 300}) if bad else None,
+                    text="log_abs_det sums logarithms; it never forms det or a product of diagonal entries (finite for every size for which log|det| is finite)")
+    if n == 0:
+        run_.ob("matrices.log_abs_det/accumulates-in-log-space", core.ERROR, "frames", detail="no log_abs_det implementation found")
+
+
 def run(run_, tier):
     from .. import symla
     run_.assume("A1: reals for floats; A5: LAPACK-level shim table (printed in trusted_base); proofs are for all real parameter values at the listed "
@@ -422,9 +451,12 @@ def run(run_, tier):
               "diagonal", "eigval/eigvec", "_construct_array"):
         run_.function(f"mici.matrices.<every class>.{f}")
     run_.replay_for("", lambda w: {"script": "c10_matrices.py", "args": [json.dumps(w or {})], "timeout": 900})
+    from . import c10_generic
+    lean = c10_generic.lean_start()
     names = list(factories())
     run_suite(run_, names, tier)
     run_.notes.append(f"factories: {names}")
+    log_space_obligations(run_)
     # Engine D: the composite classes (and ring-level leaf classes) for ALL dimensions, operands = contract stubs
-    from . import c10_generic
     c10_generic.run_generic(run_, tier)
+    c10_generic.lean_finish(run_, lean)
